@@ -14,11 +14,11 @@
 (* trace is still checked.  The final step prints DONE with the number of  *)
 (* events consumed and, per property, the events that exercised it.                 *)
 (***************************************************************************)
-EXTENDS PropsMath, NumBig, Sequences, TLC, Json, IOUtils
+EXTENDS PropsMath, NumBig, Sequences, FiniteSets, TLC, Json, IOUtils
 
 Rec == ndJsonDeserialize(IOEnv.TRACE)
 
-PIDS == {"C01", "C05", "C06", "C08", "C10", "C12", "C15"}
+PIDS == {"C01", "C05", "C06", "C08", "C10", "C12", "C15", "C18"}
 
 VARIABLES l, app       \* app[p]: indices of the events that exercised property p non-trivially
 vars == <<l, app>>
@@ -71,6 +71,63 @@ ArithOK(ev) ==
     ELSE LET m == ArithModel(ev) IN
          IF m.ok THEN ev.r.ok /\ ev.r.v = m.v ELSE ~ev.r.ok
 
+
+(***************************************************************************)
+(* C18: text, JSON and width conversions.  Text is a sequence of byte      *)
+(* codes ('0' = 48, '.' = 46); numerals are produced and read by BigNat's  *)
+(* ToDigits / OfDigits, a different algorithm from the code's.             *)
+(***************************************************************************)
+DOT == 46
+IsDigitByte(b) == b >= 48 /\ b <= 57
+ByteDigits(n) == LET ds == BN!ToDigits(n) IN [i \in DOMAIN ds |-> ds[i] + 48]
+DigitsOfBytes(s) == [i \in DOMAIN s |-> s[i] - 48]
+RECURSIVE TrimRightZeros(_)
+TrimRightZeros(s) == IF s # <<>> /\ s[Len(s)] = 48 THEN TrimRightZeros(SubSeq(s, 1, Len(s) - 1)) ELSE s
+Pad18(s) == [i \in 1..(18 - Len(s)) |-> 48] \o s
+
+\* the canonical decimal numeral of the Decimal256 with atomics v
+Render(v) ==
+    LET w == NDiv(v, DFRAC)  f == NMod(v, DFRAC) IN
+    IF f = N0 THEN ByteDigits(w) ELSE ByteDigits(w) \o <<DOT>> \o TrimRightZeros(Pad18(ByteDigits(f)))
+
+Dots(s) == {i \in DOMAIN s : s[i] = DOT}
+OnlyDigitsAndDots(s) == \A i \in DOMAIN s : IsDigitByte(s[i]) \/ s[i] = DOT
+\* a numeral with non-empty digit groups (strings with an empty group are not judged)
+WellFormedDec(s) ==
+    /\ OnlyDigitsAndDots(s) /\ Cardinality(Dots(s)) <= 1
+    /\ IF Dots(s) = {} THEN Len(s) >= 1
+       ELSE LET d == CHOOSE i \in Dots(s) : TRUE IN d > 1 /\ d < Len(s)
+FracLen(s) == IF Dots(s) = {} THEN 0 ELSE Len(s) - (CHOOSE i \in Dots(s) : TRUE)
+\* atomics denoted by a well-formed numeral with at most 18 fraction digits
+Denoted(s) ==
+    IF Dots(s) = {} THEN NMul(BN!OfDigits(DigitsOfBytes(s)), DFRAC)
+    ELSE LET d == CHOOSE i \in Dots(s) : TRUE
+             w == BN!OfDigits(DigitsOfBytes(SubSeq(s, 1, d - 1)))
+             fs == SubSeq(s, d + 1, Len(s))
+         IN  NAdd(NMul(w, DFRAC), NMul(BN!OfDigits(DigitsOfBytes(fs)), BN!Pow10(18 - Len(fs))))
+
+DecParseOK(s, r) ==
+    /\ (OnlyDigitsAndDots(s) /\ Cardinality(Dots(s)) >= 2) => ~r.ok
+    /\ WellFormedDec(s) =>
+          /\ FracLen(s) > 18 => ~r.ok
+          /\ (r.ok /\ FracLen(s) <= 18) => r.v = Denoted(s)
+UintParseOK(s, r) ==
+    /\ (OnlyDigitsAndDots(s) /\ Dots(s) # {}) => ~r.ok
+    /\ (OnlyDigitsAndDots(s) /\ Dots(s) = {} /\ Len(s) >= 1 /\ r.ok) => r.v = BN!OfDigits(DigitsOfBytes(s))
+
+TextOK(ev) ==
+    CASE ev.op = "dec_render"  -> ev.s = Render(ev.v)
+      [] ev.op = "uint_render" -> ev.s = ByteDigits(ev.v) /\ ev.s2 = ev.s
+      [] ev.op \in {"dec_parse", "dec_json_parse"} -> DecParseOK(ev.s_in, ev.r)
+      [] ev.op = "uint_parse"  -> UintParseOK(ev.s_in, ev.r) /\ UintParseOK(ev.s_in, ev.r2) /\ (ev.r.ok <=> ev.r2.ok)
+      [] ev.op = "uint_json_parse" -> UintParseOK(ev.s_in, ev.r)
+      [] ev.op \in {"dec_roundtrip", "uint_roundtrip"} ->
+            /\ ev.r.ok /\ ev.r.v = ev.v
+            /\ ev.r2.ok /\ ev.r2.v = ev.v
+            /\ ev.r3.ok /\ ev.r3.v = ev.v
+      [] ev.op = "dec_to128"   -> IF Fits128(ev.v) THEN ev.r.ok /\ ev.r.v = ev.v ELSE ~ev.r.ok
+      [] ev.op = "dec_from128" -> ev.r.ok /\ ev.r.v = ev.v
+
 Check(ev) ==
     CASE ev.k = "swap" -> SwapChecks(ev.x, ev.y, ev.a, ev.c, ev.r)
       [] ev.k = "swapmono" ->
@@ -96,6 +153,7 @@ Check(ev) ==
             /\ Chk(C15_Guard(Opt(ev.t), ev.d0, ev.d1, ev.r0, ev.r1, ev.r), "C15", "guard", "")
             /\ Dev(GuardSame(ev.r, AssertSlippage(Opt(ev.t), ev.d0, ev.d1, ev.r0, ev.r1)), "assert_slippage_tolerance")
       [] ev.k = "arith" -> Chk(ArithOK(ev), "C08", ev.op, "")
+      [] ev.k = "text"  -> Chk(TextOK(ev), "C18", ev.op, "")
 
 \* which properties an event exercises non-trivially (its antecedent holds)
 Applies(ev) ==
@@ -106,6 +164,7 @@ Applies(ev) ==
       [] ev.k = "maxspread" -> IF ev.ms.some /\ (ev.r.ok \/ IsSpreadReject(ev.r)) THEN {"C10"} ELSE {}
       [] ev.k = "slip"      -> IF ev.t.some /\ (ev.r.ok \/ IsSlippageReject(ev.r)) THEN {"C15"} ELSE {}
       [] ev.k = "arith"     -> {"C08"}
+      [] ev.k = "text"      -> {"C18"}
 
 Init == l = 1 /\ app = [p \in PIDS |-> <<>>]
 
